@@ -135,8 +135,10 @@ pub fn closure_laws(sub: &Ontology) -> Vec<String> {
     d
 }
 
-/// `--laws-only` (the C01 run): only the intrinsic closure laws are demanded of the result, whichever allowed result it is
-pub static LAWS_ONLY: std::sync::atomic::AtomicBool = std::sync::atomic::AtomicBool::new(false);
+/// `--laws-only 1` (the C01 run): only the intrinsic closure laws are demanded of the result, whichever allowed result it is;
+/// `--laws-only 2` / `3` (the C02 / C03 runs): the result is compared with the specification's expectation for the retained term set
+/// it chose, but only in the annotation links / the information content (what is retained is C14's business)
+pub static LAWS_ONLY: std::sync::atomic::AtomicU8 = std::sync::atomic::AtomicU8::new(0);
 
 fn check_result(what: &str, src: &Ontology, scn: &Scenario, line: &Value, conc: &Concretisation, root: u32, leaves: &[u32], d: &mut Vec<String>) {
     let want_ok = line["result"]["ok"].as_bool().unwrap();
@@ -157,11 +159,14 @@ fn check_result(what: &str, src: &Ontology, scn: &Scenario, line: &Value, conc: 
         d.push(format!("{what}: sub_ontology({root}, {:?}) succeeded although a leaf is not below the root (an error is required)", leaves));
         return;
     }
-    match catch(|| closure_laws(&sub)) {
-        Ok(l) => d.extend(l.into_iter().map(|x| format!("{what}: sub_ontology({root}, {:?}): {x}", leaves))),
-        Err(p) => d.push(format!("{what}: reading the sub-ontology panicked: {p}")),
+    let mode = LAWS_ONLY.load(std::sync::atomic::Ordering::Relaxed);
+    if mode <= 1 {
+        match catch(|| closure_laws(&sub)) {
+            Ok(l) => d.extend(l.into_iter().map(|x| format!("{what}: sub_ontology({root}, {:?}): {x}", leaves))),
+            Err(p) => d.push(format!("{what}: reading the sub-ontology panicked: {p}")),
+        }
     }
-    if LAWS_ONLY.load(std::sync::atomic::Ordering::Relaxed) {
+    if mode == 1 {
         return;
     }
     let got = match catch(|| {
@@ -182,6 +187,9 @@ fn check_result(what: &str, src: &Ontology, scn: &Scenario, line: &Value, conc: 
         t == got
     });
     let Some(a) = hit else {
+        if mode != 0 {
+            return;
+        }
         let all: Vec<Vec<u32>> = allowed.iter().map(|a| u32_list(&a["terms"]).into_iter().map(|m| conc.get(m)).collect()).collect();
         d.push(format!("{what}: sub_ontology({root}, {:?}) retains the terms {:?}; allowed (leaves + one shortest chain per leaf): {:?}", leaves, got, all));
         return;
@@ -204,7 +212,12 @@ fn check_result(what: &str, src: &Ontology, scn: &Scenario, line: &Value, conc: 
             }
         }
     }
-    match catch(|| compare(&sub, &exp, &[Focus::Struct, Focus::Ann, Focus::Ic, Focus::Meta])) {
+    let focus: Vec<Focus> = match mode {
+        2 => vec![Focus::Ann],
+        3 => vec![Focus::Ic],
+        _ => vec![Focus::Struct, Focus::Ann, Focus::Ic, Focus::Meta],
+    };
+    match catch(|| compare(&sub, &exp, &focus)) {
         Ok(diffs) => {
             for x in diffs {
                 if !x.starts_with("hpo_version") {
@@ -213,6 +226,9 @@ fn check_result(what: &str, src: &Ontology, scn: &Scenario, line: &Value, conc: 
             }
         }
         Err(p) => d.push(format!("{what}: reading the sub-ontology panicked: {p}")),
+    }
+    if mode != 0 {
+        return;
     }
     // every leaf reaches the root at its original distance
     for l in leaves {
@@ -273,7 +289,7 @@ pub fn run(args: &Args) {
     silence_panics();
     let Some(shard) = shard_or_spawn("replay-sub", args) else { return };
     let prop = args.get("prop").unwrap_or("C14").to_string();
-    LAWS_ONLY.store(args.get("laws-only").is_some(), std::sync::atomic::Ordering::Relaxed);
+    LAWS_ONLY.store(args.num("laws-only", 0) as u8, std::sync::atomic::Ordering::Relaxed);
     let (n_all, lines) = read_tlc_lines_sharded(args.req("in"), "REPLAY", shard);
     if n_all == 0 {
         eprintln!("no REPLAY lines");
@@ -309,7 +325,7 @@ pub fn run(args: &Args) {
 pub fn replay_one(v: &Value) -> bool {
     silence_panics();
     let mut st = Stats::default();
-    LAWS_ONLY.store(v["property"].as_str() == Some("C01"), std::sync::atomic::Ordering::Relaxed);
+    LAWS_ONLY.store(match v["property"].as_str() { Some("C01") => 1, Some("C02") => 2, Some("C03") => 3, _ => 0 }, std::sync::atomic::Ordering::Relaxed);
     let out = check_line(&mut st, &v["line"], v["layout"].as_u64().map(|x| x as usize));
     for (c, d) in &out {
         for l in d {
